@@ -158,7 +158,7 @@ ApplyView(e) ==
          ELSE LET W == e.K - 1
                   rows == IF e.ret = "ok" /\ Len(e.shape) = 2 THEN e.shape[2] ELSE 0
               IN Res(/\ e.ret = "ok" /\ e.format = "B" /\ e.itemsize = 1 /\ e.ndim = 2
-                     /\ e.shape[1] = e.C /\ (rows = e.R \/ rows = e.R + e.wrap)
+                     /\ e.shape[1] = e.C /\ rows = e.R          \* the logical extents: look-ahead rows are not exposed
                      /\ e.list = [c \in 1..e.C |-> [r \in 1..rows |-> StripedCell(e.logical, e.C, r - 1, c - 1, W)]],
                      "striped_view")
     [] e.kind = "scores" ->
